@@ -54,9 +54,15 @@ def typed_symbol_occurrences(unit):
     retr = lk['ExpressionRetriever'](lambda e: isinstance(e, (sym.TypedSymbol, sym.MetaSymbol)))
     out = []
 
+    holder = ['']
+
     def expr(e, stack):
-        for s in retr.retrieve(e):
-            out.append((s, stack))
+        found = retr.retrieve(e)
+        for i, s in enumerate(found):
+            # a Scalar/Array meta symbol wraps a VariableSymbol (visited just before it): one occurrence, not two
+            if i + 1 < len(found) and isinstance(found[i + 1], sym.MetaSymbol) and found[i + 1].symbol is s:
+                continue
+            out.append((s, stack, holder[0]))
 
     def visit(o, stack):
         if isinstance(o, Sourcefile):
@@ -72,7 +78,10 @@ def typed_symbol_occurrences(unit):
             for k in o.__dataclass_fields__:
                 if k in ('source', 'symbol_attrs', 'parent'):
                     continue
-                visit(d.get(k), st)
+                v = d.get(k)
+                if v is not None and not isinstance(v, (str, int, float, bool)):
+                    holder[0] = f'{type(o).__name__}.{k}'
+                    visit(v, st)
         elif isinstance(o, (tuple, list)):
             for i in o:
                 visit(i, stack)
@@ -186,18 +195,19 @@ def observe(unit, text=True):
         txt = None
     cache = {}
     types, foreign = [], []
-    for s, stack in typed_symbol_occurrences(unit):
+    for s, stack, hold in typed_symbol_occurrences(unit):
         try:
             t = s.type
         except Exception as e:  # pylint: disable=broad-except
-            types.append((f'{type(s).__name__} {s}', ('type-raises', type(e).__name__)))
+            types.append((str(s), ('type-raises', type(e).__name__)))
             continue
-        types.append((f'{type(s).__name__} {s}', type_fp(t, cache)))
+        types.append((str(s), type_fp(t, cache)))
         sc = s.scope
         if sc is not None and stack:
             chain = scope_chain(stack[-1])
             if not any(sc is c for c in chain):
-                foreign.append((len(types) - 1, str(s), type(sc).__name__, getattr(sc, 'name', None)))
+                foreign.append((len(types) - 1, str(s), type(sc).__name__, getattr(sc, 'name', None),
+                                f'in {hold}'))
     return Obs(txt, tuple(types), tuple(foreign))
 
 
@@ -205,11 +215,14 @@ def link_targets(unit):
     """For every typed-symbol occurrence: the TypeDef / procedure objects its dtype links to."""
     lk = LK()
     out = []
-    for s, _ in typed_symbol_occurrences(unit):
+    for s, _, _ in typed_symbol_occurrences(unit):
         try:
             dt = s.type.dtype
+            mod = s.type.module
         except Exception:  # pylint: disable=broad-except
             continue
+        if isinstance(mod, lk['ProgramUnit']):
+            out.append((str(s), 'module', mod))
         if isinstance(dt, lk['DerivedType']) and isinstance(dt.typedef, lk['ir'].TypeDef):
             out.append((str(s), 'typedef', dt.typedef))
         elif isinstance(dt, lk['ProcedureType']) and isinstance(dt.procedure, lk['ProgramUnit']):
@@ -223,9 +236,6 @@ def diff_types(a, b):
         return None
     for (sa, ta), (sb, tb) in zip(a, b):
         if sa != sb:
-            ca, cb = sa.split(' ', 1)[0], sb.split(' ', 1)[0]
-            if ca != cb:
-                return (f'symbol class {ca} vs {cb}', f'{sa!r} vs {sb!r}')
             return ('symbol text', f'{sa!r} vs {sb!r}')
         if ta != tb:
             da, db = dict(ta or ()), dict(tb or ())
@@ -463,9 +473,9 @@ def explain_neq(a, b, depth=0):
         la, lb = isinstance(pa, lk['ProgramUnit']), isinstance(pb, lk['ProgramUnit'])
         if la != lb:
             return f'{cn}.procedure:{"linked" if la else "unlinked"}-vs-{"linked" if lb else "unlinked"}'
-        return fields(['name', 'procedure', 'is_function', 'is_generic', 'return_type'],
-                      [a.name, pa, a.is_function, a.is_generic, a.return_type],
-                      [b.name, pb, b.is_function, b.is_generic, b.return_type])
+        return fields(['stored_name', 'name', 'procedure', 'is_function', 'is_generic', 'return_type'],
+                      [a._name, a.name, pa, a.is_function, a.is_generic, a.return_type],   # pylint: disable=protected-access
+                      [b._name, b.name, pb, b.is_function, b.is_generic, b.return_type])   # pylint: disable=protected-access
     if isinstance(a, lk['DerivedType']):
         ta, tb = a.typedef, b.typedef
         la, lb = isinstance(ta, lk['ir'].TypeDef), isinstance(tb, lk['ir'].TypeDef)
